@@ -7,7 +7,7 @@
 From Coq Require Import List NArith Bool String.
 Import ListNotations.
 Require Import RV.Lib.PyStr RV.Model.Path RV.Model.Rights RV.Model.Regex RV.Model.FromFile.
-Require Import RV.Proofs.PathProofs RV.Proofs.RightsProofs RV.Proofs.RegexMatchProofs RV.Proofs.RegexEscapeProofs
+Require Import RV.Proofs.PathProofs RV.Proofs.RightsProofs RV.Proofs.RightsIntersect RV.Proofs.RegexMatchProofs RV.Proofs.RegexEscapeProofs
                RV.Proofs.RegexFuelProofs RV.Proofs.FromFileProofs RV.Proofs.C04Final.
 Require RV.Gen.PathGen RV.Gen.RightsGen.
 Open Scope list_scope. Open Scope N_scope.
@@ -101,6 +101,13 @@ Theorem C04_own_home_owner_write : forall u c tr, safe u -> safe c -> (tr = [] \
   /\ RightsGen.authorization_owner_write true u (render [u; c] ++ tr) = str "rw".
 Proof. exact c04_own_home_owner_write. Qed.
 Print Assumptions C04_own_home_owner_write.
+
+(* rights.intersect (used to combine the permissions of a collection and of its parent): exactly the letters
+   present in both *)
+Theorem C04_intersect : forall a b c,
+  contains_char c (RightsGen.intersect a b) = contains_char c a && contains_char c b.
+Proof. exact c04_intersect. Qed.
+Print Assumptions C04_intersect.
 
 (* ================================================================== from_file *)
 (* First match wins: permissions x are returned iff some section matches (SMatch: user pattern and instantiated
